@@ -351,7 +351,7 @@ pub fn write_spec(mix: WriteMix, nkeys: usize, nblobs: usize) -> impl Strategy<V
         (prop_oneof![3 => Just(0u8), 1 => 3u8..6], prop_oneof![12 => Just(Interfere::None), 1 => Just(Interfere::Clear), 1 => Just(Interfere::RemoveTmp), 1 => Just(Interfere::RemoveContentArea)],
          prop_oneof![8 => Just(0u16), 2 => 1u16..4, 1 => Just(1025u16), 1 => Just(1500u16)],
          proptest::option::weighted(0.15, 0u8..8),
-         prop_oneof![18 => Just(0u32), 1 => Just(2u32), 1 => Just(25u32), 1 => Just(24 * 40)],
+         prop_oneof![18 => Just(0i32), 1 => Just(2i32), 1 => Just(25i32), 1 => Just(24 * 40), 1 => Just(-1i32), 1 => Just(-24 * 400)],
          prop::bool::weighted(0.12)),
     )
         .prop_map(move |((ks, bs, hash, algo, entry), (chunks, declare, integ), (time, metadata, raw, flush), (pause, interfere, vectored, cancel_chunk, aged_hours, decoy_opts))| {
